@@ -94,11 +94,32 @@ func (c *Cmd) script() string {
 	return ""
 }
 
-func (c *Cmd) exec() ([]byte, error) {
+// viaPipe: does the caller collect stdout/stderr through a pipe (then Wait
+// only returns once every child holding the write end has exited), or does
+// the command write to plain files / nothing (then Wait returns when the
+// shell exits, whatever its children still do)?
+func (c *Cmd) viaPipe(collecting bool) bool {
+	if collecting {
+		return true
+	}
+	for _, w := range []io.Writer{c.Stdout, c.Stderr} {
+		if w == nil {
+			continue
+		}
+		if _, isFile := w.(*simrt.File); !isFile {
+			return true
+		}
+	}
+	return false
+}
+
+func (c *Cmd) exec() ([]byte, error) { return c.execMode(true) }
+
+func (c *Cmd) execMode(collecting bool) ([]byte, error) {
 	if c.Dir != "" {
 		simrt.S.HarnessFail("exec with Cmd.Dir is not modelled")
 	}
-	out, err := simrt.S.Shell.Exec(c.script())
+	out, err := simrt.S.Shell.ExecMode(c.script(), c.viaPipe(collecting))
 	c.ProcessState = &ProcessState{}
 	if ee, ok := err.(*simrt.ExitError); ok {
 		c.ProcessState = &ProcessState{code: ee.Code, signal: ee.Signal}
@@ -132,7 +153,7 @@ func (c *Cmd) Run() error {
 		}
 		return c.Wait()
 	}
-	out, err := c.exec()
+	out, err := c.execMode(false)
 	c.deliver(out)
 	return err
 }
@@ -145,7 +166,7 @@ func (c *Cmd) Start() error {
 	}
 	c.started = true
 	c.Process = &Process{Pid: 4243}
-	c.out, c.err = c.exec()
+	c.out, c.err = c.execMode(false)
 	c.deliver(c.out)
 	return nil
 }
